@@ -152,6 +152,9 @@ func runC03(p *core.Prog, r *core.Report) {
 	r6 := r.Rule("C03.R6", "in the ordered scan of the primary attribute a filter mismatch ends the search only for operators whose failure is monotone: never for NUM_GT, NUM_GE or STRING_NOT_EQUAL (a value below a lower bound says nothing about the following keys)", 1)
 	mismatchStopsOnlyMonotone(p, r, r6)
 	// ---------------- R7 the start position of a PREFIX scan
+	r8 := r.Rule("C03.R8", "the parser of numeric filter bounds (package signed256) uses the value of a strconv parser only where that parser returned no error (shared with C05.R7)", 1)
+	parsedValueOnlyAfterErrCheck(p, r, r8)
+	r.Explain += " (R8, shared with C05.R7) the parser of numeric filter bounds uses the result of the word-sized strconv parser only where it returned no error; otherwise the bound is the clamped 2^64-1 and the filter compares against another number than the one stored values were indexed under."
 	r7 := r.Rule("C03.R7", "PreprocessSearchQuery turns the primary filter's text into a start key with Base58/HEX decoding only when the filter is not a COMMON_PREFIX one or the text is the whole value: a cut text is not a prefix of the binary form", 2)
 	if pq := p.Func("pkg/core/object.PreprocessSearchQuery"); pq == nil {
 		r.Fatalf("C03.R7: PreprocessSearchQuery not found")
